@@ -1,6 +1,7 @@
 (* Corr_C03.v — comparison and monitor for C03 (identity headers and cookies seen by an upstream).
    A case carries the configuration, which branch of Proxy the request took (with the session
-   Authenticate loaded), the client's header lines as sent, and what the recording backend
+   presented in the cookie, which of its deadlines had passed and what the authenticator answered),
+   the session the proxy re-saved in the response, the client's header lines as sent, and what the recording backend
    received: the value lists of the four identity headers, its raw Cookie header lines and the
    (name, value) list its own net/http parser (Request.Cookies) made of them. No proofs here. *)
 From V Require Export Base CorrBase ReqHeaders.
@@ -11,8 +12,15 @@ Inductive case :=
                                                               (false on the code that exists, true once the repair
                                                               is in): selects which of the two proved models the
                                                               observations are compared with *)
-       (cfg : config) (m : mode) (client : list (str * str))
+       (cfg : config)
+       (m : mode)                                          (* Authenticated s: s is the session PRESENTED in the cookie *)
+       (allowed : list str)                                (* UpstreamConfig.AllowedGroups *)
+       (d : due)                                           (* which deadline of the presented session had passed and
+                                                              what the (fake) authenticator answered *)
+       (client : list (str * str))
        (forwarded : bool)                                  (* the backend received exactly one request *)
+       (o_saved : option session)                          (* the session the proxy re-saved in THIS response
+                                                              (Set-Cookie opened with the proxy's key), if any *)
        (o_user o_email o_groups o_token : list str)        (* backend: r.Header[key] *)
        (o_cookie_lines : list str)                         (* backend: r.Header["Cookie"] *)
        (o_cookies : list (str * str)).                     (* backend: r.Cookies() as (name, value) *)
@@ -86,28 +94,48 @@ Definition predict (scrub : bool) (cfg : config) (m : mode) (client : list (str 
   let out := upstream scrub cfg m client in
   (h_get k_xfu out, h_get k_xfe out, h_get k_xfg out, h_get k_xfat out, h_get k_cookie out).
 
+Definition session_eqb (a b : session) : bool :=
+  str_eqb (s_user a) (s_user b) && str_eqb (s_email a) (s_email b) &&
+  strs_eqb (s_groups a) (s_groups b) && str_eqb (s_token a) (s_token b).
+
+(* the model's view: the session Authenticate asserts is the presented one after the due
+   refresh / revalidation *)
+Definition model_mode (allowed : list str) (d : due) (m : mode) : mode :=
+  match m with Authenticated s => Authenticated (asserted_session allowed s d) | SkipAuth => SkipAuth end.
+Definition model_saved (allowed : list str) (d : due) (m : mode) : option session :=
+  match m with Authenticated s => resaved_session allowed s d | SkipAuth => None end.
+
+(* the property's view, on observations only: the identity headers must be those of the session
+   the proxy re-saved in this very response; when it re-saved nothing, of the presented session *)
+Definition observed_mode (o_saved : option session) (m : mode) : mode :=
+  match m with
+  | Authenticated s => Authenticated (match o_saved with Some s' => s' | None => s end)
+  | SkipAuth => SkipAuth
+  end.
+
 Definition judge (c : case) : N :=
   match c with
-  | Case scrub cfg m client fwd ou oe og ot ol oc =>
-      let '(mu, me, mg, mt, ml) := predict scrub cfg m client in
+  | Case scrub cfg m allowed d client fwd o_saved ou oe og ot ol oc =>
+      let '(mu, me, mg, mt, ml) := predict scrub cfg (model_mode allowed d m) client in
       let mismatch :=
-        negb (fwd && strs_eqb mu ou && strs_eqb me oe && strs_eqb mg og && strs_eqb mt ot &&
+        negb (fwd && option_eqb session_eqb (model_saved allowed d m) o_saved && strs_eqb mu ou && strs_eqb me oe && strs_eqb mg og && strs_eqb mt ot &&
               (* cookies are compared as the (name, value) list the upstream reads, not as raw bytes:
                  a harmless change of the separator or of quoting style is not a difference *)
               pairs_eqb (map name_value (read_cookies ml)) oc &&
               (* the model of net/http's cookie parser against the backend's real parser *)
               pairs_eqb (map name_value (read_cookies ol)) oc) in
-      let v := monitor cfg m client ou oe og ot ol oc in
+      let v := monitor cfg (observed_mode o_saved m) client ou oe og ot ol oc in
       code mismatch (negb (v_fail v)) (if v_unexplained v then 0 else v_known v)
   end.
 
 (* classes for the evidence histogram: 1 / 2 = plain authenticated / skip-auth request (trivial);
    bits: 4 client sent an identity header, 8 client's Connection names an identity header or Cookie,
    16 a foreign cookie is present, 32 the session cookie occurs zero or several times,
-   64 injected request headers configured, 128 access-token option on *)
+   64 injected request headers configured, 128 access-token option on,
+   256 refresh due, 512 revalidation due, 768 grace fallback *)
 Definition classify (c : case) : N :=
   match c with
-  | Case _ cfg m client _ _ _ _ _ _ _ =>
+  | Case _ cfg m _ d client _ _ _ _ _ _ _ _ =>
       let cn := cookie_name cfg in
       let cs := map name_value (read_cookies (h_get k_cookie (mk_headers client))) in
       let nsess := length (filter (fun nv => str_eqb (fst nv) cn) cs) in
@@ -117,5 +145,6 @@ Definition classify (c : case) : N :=
       (if is_nil (want_cookies cn client) then 0 else 16) +
       (if Nat.eqb nsess 1 then 0 else 32) +
       (if is_nil (inject cfg) then 0 else 64) +
-      (if pass_access_token cfg then 128 else 0)
+      (if pass_access_token cfg then 128 else 0) +
+      (match d with NotDue => 0 | RefreshDue _ _ => 256 | ValidateDue _ => 512 | GraceFallback => 768 end)
   end.
